@@ -36,6 +36,7 @@ func main() {
 	replay := flag.String("replay", "", "re-evaluate the obligations of a violations file")
 	inv := flag.String("inventory", "", "print an inventory (development aid)")
 	evd := flag.String("evidence-dir", "", "write evidence and violation files here instead of <verif>/evidence (development aid)")
+	snapSymbols := flag.String("snapshot-symbols", "", "write the symbol record used by the rename normalisation to this file and exit (development aid; commit it as ycheck/symbols.json)")
 	snapAnchors := flag.String("snapshot-anchors", "", "after the run, write the fingerprints of all resolved anchors to this file (development aid; commit it as ycheck/anchors.json)")
 	flag.Parse()
 	evidenceOverride = *evd
@@ -91,8 +92,17 @@ func main() {
 		fmt.Printf("unknown property %q\n", *prop)
 		os.Exit(2)
 	}
+	if *snapSymbols != "" {
+		w, err := loadWorld(*repo, nil, "")
+		if err != nil {
+			fmt.Println(err)
+			os.Exit(2)
+		}
+		writeSymbolSnapshot(w, *snapSymbols)
+		return
+	}
 	t0 := time.Now()
-	w, err := loadWorld(*repo, nil, "")
+	w, err := loadWorldNormalized(*repo, nil, "")
 	if err != nil {
 		fmt.Printf("UNDECIDED: %v\n", err)
 		os.Exit(2)
